@@ -374,7 +374,7 @@ def removeA (name : Bytes) : List ARec → List ARec
 def shiftA (erasedPtr freed : Nat) (a : ARec) : ARec :=
   if a.namePtr > erasedPtr then { a with namePtr := a.namePtr - freed, arrPtr := a.arrPtr - freed } else a
 
-/-- `Arrays.erase_` for one name -/
+/-- one round of the `for name in args` loop of `Arrays.erase_` -/
 def eraseStmt (name : Bytes) (s : VM) : MR :=
   match findA name s.arrays with
   | none => .error (Gen.E.ifc, s)
@@ -382,18 +382,27 @@ def eraseStmt (name : Bytes) (s : VM) : MR :=
     let freed := bufSize s.base name e.dims + arecSize name e.dims
     .ok { s with arrays := (removeA name s.arrays).map (shiftA e.namePtr freed), arrCur := s.arrCur - freed }
 
+/-- `Arrays.erase_`: the loop over the names of one ERASE statement; an unknown (or repeated) name raises
+    Illegal function call after the names before it have been erased -/
+def eraseList : List Bytes → VM → MR
+  | [], s => .ok s
+  | n :: r, s =>
+    match eraseStmt n s with
+    | .error x => .error x
+    | .ok s1 => eraseList r s1
+
 inductive Op
   | letv (d : Dst) (v : Val)
   | dim (name : Bytes) (dims : List Nat)
   | swap (a b : Dst)
-  | erase (name : Bytes)
+  | erase (names : List Bytes)
 deriving Repr
 
 def stmt : Op → VM → MR
   | .letv d v, s => letStmt d v s
   | .dim n dims, s => allocate n dims s
   | .swap a b, s => swapStmt a b s
-  | .erase n, s => eraseStmt n s
+  | .erase ns, s => eraseList ns s
 
 /-- one statement: the state the interpreter is left in, and the error number (0 = none) -/
 def step (s : VM) (op : Op) : VM × Nat :=
